@@ -468,13 +468,13 @@ def hex_shim(x):
     return _builtins.hex(x)
 
 
-_FMT = _re.compile(r'%(?P<flags>[-#0 +]*)(?P<width>\d+)?(?:\.(?P<prec>\d+))?(?P<type>[sdxXr%])')
+_FMT = _re.compile(r'%(?P<flags>[-#0 +]*)(?P<width>\d+)?(?:\.(?P<prec>\d+))?(?P<type>[sdxXrfgeiu%])')
 
 
 def symx_mod(fmt, args):
     """<literal> % args that keeps proxies (%s / %d / %x with optional zero-padding width)"""
     tup = args if isinstance(args, tuple) else (args,)
-    if not any(isinstance(a, (core.SInt, core.SStr, core.SBytes, core.SChar)) for a in tup):
+    if not any(isinstance(a, (core.SInt, core.SStr, core.SBytes, core.SChar)) or type(a).__name__ in ('LInt', 'SFloat', 'SFloatQ') for a in tup):
         return fmt % args
     out, pos, k = core.SStr([]), 0, 0
     for m in _FMT.finditer(fmt):
@@ -486,8 +486,12 @@ def symx_mod(fmt, args):
         a = tup[k]
         k += 1
         t, flags, width = m.group('type'), m.group('flags') or '', int(m.group('width') or 0)
+        if type(a).__name__ in ('LInt', 'SFloat', 'SFloatQ') or (isinstance(a, core.SInt) and t in 'sd'):
+            # decimal text of a symbolic number (error / log messages): an indexed placeholder, as SInt.__str__ does
+            out = out + core._placeholder(a)
+            continue
         if not isinstance(a, (core.SInt, core.SStr, core.SChar)):
-            out = out + (('%' + flags + (m.group('width') or '') + t) % (a,))
+            out = out + (('%' + flags + (m.group('width') or '') + ('.' + m.group('prec') if m.group('prec') else '') + t) % (a,))
             continue
         if m.group('prec') or flags.strip('0'):
             raise core.EngineLimit("format spec %r on a symbolic value" % m.group(0))
@@ -496,8 +500,6 @@ def symx_mod(fmt, args):
             if width and '0' in flags:
                 r, width = r.zfill(width), 0
             r = r.upper() if t == 'X' else r
-        elif isinstance(a, core.SInt) and t in 'sd':
-            raise core.EngineLimit("decimal rendering of a symbolic int in a format string")
         elif isinstance(a, (core.SStr, core.SChar)) and t == 's':
             r = core.SStr.lift(a)
         else:
